@@ -58,9 +58,14 @@ LEVEL_TEXT = ('Theorems for ALL structured programs (any nesting depth, any numb
               'leaves) and random programs (depth <= 6, half of them with pool expressions substituted for their tests) and, since the lowering must not depend on '
               'how a line is spelled, by the spelling streams (every gap of every statement line kind x every white-space class of the '
               'line grammar / line-continuation form / line end / non-statement line, one deviation at a time exhaustively, whole '
-              'programs in uniform and random styles, text as one string or as a list of lines, identifiers that look like keywords): '
+              'programs in uniform and random styles, text as one string or as a list of lines, identifiers that look like keywords), '
+              'by the ill-nested stream (break / continue that no loop of its own scope encloses, under every chain of open global blocks x '
+              'every chain of ifs inside a function, exhaustively: rejected like the mirror) and, implementation side only, by single-line '
+              'edits of well-nested hosts and by every lexical alternative of the expression grammar at every expression site (schema '
+              'clause: signed literals, quote styles, bracketed names, operator near misses): '
               'parse_script output vs spec vs mirror, plus direct oracles on the '
-              'implementation output (validate_script, per-scope label/jump census, only generated names in structured code, lint_script, '
+              'implementation output (validate_script, harness-pinned walk of the published schema, per-scope label/jump census, only '
+              'generated names in structured code, lint_script, '
               'execution).')
 LEVEL_NOTE = ('Trusted: Lean kernel; extract.py; harness (progen renderer, scope oracles). The core theorems speak about the spec lowering; '
               'parsed_well_formed carries them to the line-at-a-time mirror via the imported C01.parseLines_render. WellNested is not needed '
@@ -108,12 +113,12 @@ def inc(name):
     return {'k': 'expr', 'name': name, 'e': wf_binary('+', var(name), num(1))}
 
 
-def build(shape, level=0):
-    """structured statements (wire form) of a shape"""
+def build(shape, level=0, leaf=None):
+    """structured statements (wire form) of a shape; `leaf`: the statements of the innermost block (default: one assignment)"""
     if not shape:
-        return [inc('m')]
+        return [inc('m')] if leaf is None else leaf
     (name, slot, brk, cont), rest = shape[0], shape[1:]
-    block = [inc('n')] + build(rest, level + 1)
+    block = [inc('n')] + build(rest, level + 1, leaf)
     if cont:
         block.append({'k': 'continue'})
     if brk:
@@ -630,8 +635,361 @@ def rename(obj, table=None):
 
 
 # ---------------------------------------------------------------------------------------------------------------------
+# ill-nested family: "every model returned by parse_script" also quantifies over the texts the parser OUGHT to reject.  A break /
+# continue / else / elif / end... line binds to the innermost open block OF ITS OWN SCOPE; a function defined while global blocks are
+# open must not see them.  Whatever the parser accepts must still be well formed (jumps to labels of the same scope), and what the
+# line-at-a-time mirror rejects the parser must reject too.
+#   (1) stray break / continue (wire form, so the mirror answers too): every chain of <= 2 global constructs around the function
+#       definition x every chain of if-variants (child in every branch) around the stray statement inside the function x break /
+#       continue x what else the function holds (nothing, a loop closed before, a for with its own continue closed before, a loop after,
+#       the function's own while / for AROUND the chain = the accepted twin) x a closed global loop in front or not; the same at global
+#       scope without a function.
+#   (2) single-line edits of well-nested hosts (text only - an unbalanced line sequence has no wire form, so no Lean side: the
+#       implementation-side oracles judge every model the parser still returns): every block line deleted / duplicated / swapped with
+#       its neighbour, every block keyword line inserted at every position.
+# ---------------------------------------------------------------------------------------------------------------------
+
+OUTER_LEVELS = [('while', 0), ('for', 0), ('forix', 0), ('if', 0), ('ifelse', 1), ('ifelif', 1), ('ifelifelse', 2)]
+INNER_LEVELS = [('if', 0), ('ifelse', 0), ('ifelse', 1), ('ifelif', 1), ('ifelifelse', 1), ('ifelifelse', 2)]
+STRAY_SIBLINGS = ['none', 'closed-while-before', 'closed-for-continue-before', 'loop-after', 'own-while-around', 'own-for-around']
+STRAY_SIBLINGS_QUICK = ['none', 'closed-for-continue-before', 'loop-after', 'own-for-around']
+
+
+def chains(levels, maxdepth):
+    """every chain of at most `maxdepth` levels (as shapes without break / continue flags)"""
+    yield ()
+    if maxdepth > 0:
+        for chain in chains(levels, maxdepth - 1):
+            for name, slot in levels:
+                yield chain + ((name, slot, False, False),)
+
+
+def stray_specs(outer_depth, inner_depth, siblings, gsibs):
+    for placement in ('fn', 'global'):
+        for outer in (chains(OUTER_LEVELS, outer_depth) if placement == 'fn' else [()]):
+            for inner in chains(INNER_LEVELS, inner_depth):
+                for stray in ('break', 'continue'):
+                    for sibling in siblings:
+                        for gsib in gsibs:
+                            if gsib == 'none' or len(outer) <= 1:      # the global sibling axis only under <= 1 open global block
+                                yield placement, outer, inner, stray, sibling, gsib
+
+
+def stray_program(placement, outer, inner, stray, sibling, gsib):
+    lt = lambda a, k: wf_binary('<', var(a), num(k))  # noqa: E731
+    arr = call('arrayNew', num(1), num(2), num(3))
+    core = build(inner, 0, [{'k': stray}])
+    closed_while = {'k': 'while', 'c': lt('q', 1), 'b': [inc('q')]}
+    closed_for = {'k': 'for', 'value': 'w', 'index': None, 'vals': arr,
+                  'b': [_if(wf_binary('==', var('w'), num(2)), [{'k': 'continue'}]), inc('s')]}
+    if sibling == 'closed-while-before':
+        body = [closed_while] + core
+    elif sibling == 'closed-for-continue-before':
+        body = [closed_for] + core
+    elif sibling == 'loop-after':
+        body = core + [{'k': 'while', 'c': lt('q', 1), 'b': [inc('q'), _if(var('q'), [{'k': 'break'}])]}]
+    elif sibling == 'own-while-around':
+        body = [{'k': 'while', 'c': lt('q', 2), 'b': [inc('q')] + core + [inc('s')]}]
+    elif sibling == 'own-for-around':
+        body = [{'k': 'for', 'value': 'w', 'index': None, 'vals': arr, 'b': [inc('q')] + core + [inc('s')]}]
+    else:
+        body = core
+    body = [{'k': 'expr', 'name': 'n', 'e': num(0)}, {'k': 'expr', 'name': 'q', 'e': num(0)}] + body
+    pre = [{'k': 'expr', 'name': 'g', 'e': num(0)}, {'k': 'expr', 'name': 'n', 'e': num(0)}]
+    if gsib == 'closed-before':
+        pre.append({'k': 'for', 'value': 'u', 'index': None, 'vals': arr,
+                    'b': [_if(wf_binary('==', var('u'), num(2)), [{'k': 'continue'}]), inc('g')]})
+    if placement == 'global':
+        return progen.assign_fids(pre + body)
+    fn = func('fa', body + [{'k': 'ret', 'e': var('n')}], ['p'])
+    return progen.assign_fids(pre + build(outer, 0, [inc('g'), fn, inc('g')]) + [{'k': 'expr', 'name': 'r', 'e': call('fa', num(1))}])
+
+
+def stray_cases(chunk):
+    cases = []
+    for placement, outer, inner, stray, sibling, gsib in chunk:
+        kinds = {lvl[0] for lvl in outer}
+        tags = ['stray', 'stray:' + stray, 'placement:' + placement, 'outer-depth%d' % len(outer), 'inner-depth%d' % len(inner),
+                'sibling:' + sibling, 'gsib:' + gsib,
+                'outer-loop-open' if kinds & {'while', 'for', 'forix'} else 'no-outer-loop']
+        cases.append((stray_program(placement, outer, inner, stray, sibling, gsib), tags))
+    return cases
+
+
+BLOCK_HEADS = ('if ', 'elif ', 'else', 'endif', 'while ', 'endwhile', 'for ', 'endfor', 'function ', 'async ', 'endfunction', 'break',
+               'continue')
+INSERT_LINES = ['break', 'continue', 'else:', 'elif n:', 'endif', 'endwhile', 'endfor', 'endfunction', 'function zq():', 'if n:',
+                'while n:', 'for zv in zz:']
+
+
+def line_edit_hosts(thorough=False):
+    """[(name, lines)] well-nested programs without raw labels / jumps"""
+    s1 = (('for', 0, True, True), ('ifelifelse', 1, True, False))
+    s2 = (('while', 0, False, True), ('ifelse', 1, False, True))
+    s3 = (('ifelif', 1, False, False), ('forix', 0, True, False))
+    picks = [(s1, 'global'), (s1, 'blockfn'), (s2, 'blockfn'), (s3, 'function'), (s2, 'multi')]
+    if thorough:
+        picks += [(s1, 'function'), (s1, 'multi'), (s2, 'global'), (s2, 'function'), (s3, 'global'), (s3, 'blockfn'), (s3, 'multi')]
+    hosts = [('%s/%s' % ('+'.join(lvl[0] for lvl in shape), context), progen.render(in_context(build(shape), context)))
+             for shape, context in picks]
+    for name, prog, raw_ in spelling_hosts():
+        if not raw_ and name in ('loop-chain-fn', 'fors-fn', 'functions'):
+            hosts.append((name, progen.render(prog)))
+    # a function (with its own loop and an if chain around a continue) defined DIRECTLY inside each kind of open global block
+    lvl = lambda name, slot: (name, slot, False, False)  # noqa: E731
+    outers = [(lvl('while', 0),), (lvl('for', 0),), (lvl('if', 0),), (lvl('ifelse', 1),)]
+    if thorough:
+        outers += [(lvl('forix', 0),), (lvl('ifelif', 1),), (lvl('while', 0), lvl('for', 0)), (lvl('for', 0), lvl('ifelifelse', 2))]
+    for outer in outers:
+        prog = stray_program('fn', outer, (lvl('ifelse', 1),), 'continue', 'own-for-around', 'none')
+        hosts.append(('fn-in-' + '+'.join('%s.%d' % l[:2] for l in outer), progen.render(prog)))
+    return hosts
+
+
+def line_edits(lines):
+    """(edit kind, edited line list): one structural line deleted / duplicated / swapped with the next / inserted"""
+    is_block = [ln.strip().startswith(BLOCK_HEADS) for ln in lines]
+    for i, ln in enumerate(lines):
+        if is_block[i]:
+            yield 'delete:' + ln.split()[0].rstrip(':'), lines[:i] + lines[i + 1:]
+            yield 'duplicate:' + ln.split()[0].rstrip(':'), lines[:i + 1] + lines[i:]
+        if i + 1 < len(lines) and (is_block[i] or is_block[i + 1]) and lines[i].strip() != lines[i + 1].strip():
+            yield 'swap', lines[:i] + [lines[i + 1], lines[i]] + lines[i + 2:]
+    for i in range(len(lines) + 1):
+        for ins in INSERT_LINES:
+            yield 'insert:' + ins.split()[0].rstrip(':'), lines[:i] + [ins] + lines[i:]
+
+
+# ---------------------------------------------------------------------------------------------------------------------
+# expression-spelling family: the schema clause is about the WHOLE model, expressions included, and the structured renderer spells
+# every expression in one canonical way (no sign on a literal, single quotes, plain names, one blank around operators).  Here every
+# lexical alternative of the expression grammar (and its near misses, which the parser must reject or still map into the schema)
+# stands at every expression site of the statement grammar.  Implementation-side oracles (validate_script, the harness-pinned walk of
+# the published schema, scope / lint / execution as everywhere); the Lean side is the schema model of drv_c07x (Schema.validate /
+# readScript / scriptJ on the returned model) - the expression TEXT grammar itself is C02 / C06, not modelled here.
+# ---------------------------------------------------------------------------------------------------------------------
+
+EXPR_SPELLINGS = [
+    # number literals: canonical, signed, fraction forms, exponent forms, leading zeros, magnitude; malformed neighbours
+    ('number:canon', '1'), ('number:canon', '0.5'), ('number:canon', '0'),
+    ('number:plus', '+1'), ('number:plus', '+0.5'), ('number:plus', '+0'), ('number:plus', '+1.'), ('number:plus', '+1e+3'), ('number:plus', '+007'),
+    ('number:minus', '-1'), ('number:minus', '-0.5'), ('number:minus', '-0'), ('number:minus', '-1e-3'),
+    ('number:forms', '1.'), ('number:forms', '1.50'), ('number:forms', '007'), ('number:forms', '1e+3'), ('number:forms', '1e-3'),
+    ('number:forms', '1.5e+2'), ('number:forms', '12345678901234567890'), ('number:forms', '1e+308'), ('number:forms', '1e-400'), ('number:forms', '1e+400'),
+    ('number:near-miss', '1e3'), ('number:near-miss', '1E+3'), ('number:near-miss', '.5'), ('number:near-miss', '0x10'), ('number:near-miss', '1_0'),
+    ('number:near-miss', '+ 1'), ('number:near-miss', '++1'), ('number:near-miss', '+-1'), ('number:near-miss', '1..2'), ('number:near-miss', '+.5'),
+    # unary operators on every operand kind; unary plus is not in the language
+    ('unary', '- 1'), ('unary', '--1'), ('unary', '-+1'), ('unary', '- -1'), ('unary', '!+1'), ('unary', '!-1'), ('unary', '-n'), ('unary', '!n'),
+    ('unary', '! n'), ('unary', '!!n'), ('unary', '-!n'), ('unary', '!-n'), ('unary', '-(n)'), ('unary', '-fb()'), ("unary", "-'a'"), ('unary', '-[n]'),
+    ('unary:plus', '+n'), ('unary:plus', '+(n)'), ('unary:plus', '+fb()'), ('unary:plus', "+'a'"), ('unary:plus', '+[n]'), ('unary:plus', '+ n'),
+    ('unary:plus', '+(1)'), ('unary:plus', '+!n'), ('unary:plus', '!+n'), ('unary:plus', '-+n'), ('unary:plus', '+true'),
+    ('unary:other', '~n'), ('unary:other', 'not n'), ('unary:other', '*n'), ('unary:other', '/n'), ('unary:other', '&n'),
+    # strings
+    ('string:canon', "'a'"), ('string:canon', "''"),
+    ('string:double', '"a"'), ('string:double', '""'), ('string:double', '"it\'s"'), ('string:double', '"say \\"x\\""'), ('string:double', '"a\\\\"'),
+    ('string:escape', "'it\\'s'"), ('string:escape', "'a\\\\'"), ('string:escape', "'a\\nb'"), ('string:escape', "'a\"b'"),
+    ('string:content', "'#'"), ('string:content', "'a: b'"), ('string:content', "' '"), ('string:content', "'+1'"), ('string:content', "'é '"),
+    ('string:content', "'endif'"), ('string:content', "')'"), ('string:content', "'\\\\\\''"),
+    ('string:near-miss', "'a"), ('string:near-miss', '"a\''), ('string:near-miss', "'a''b'"), ('string:near-miss', '`a`'),
+    # variables
+    ('variable:canon', 'n'), ('variable:forms', '_x1'), ('variable:forms', 'true'), ('variable:forms', 'null'), ('variable:forms', 'endif'),
+    ('variable:bracket', '[n]'), ('variable:bracket', '[ n ]'), ('variable:bracket', '[a b]'), ('variable:bracket', '[a\\]b]'),
+    ('variable:bracket', '[a.b]'), ('variable:bracket', '[+1]'), ('variable:bracket', "['a']"), ('variable:bracket', '[a\\\\]'),
+    ('variable:near-miss', '[]'), ('variable:near-miss', '[n'), ('variable:near-miss', '1n'), ('variable:near-miss', 'n.m'), ('variable:near-miss', '$n'),
+    # calls
+    ('call:canon', 'fb()'), ('call:canon', 'fb(1, 2)'),
+    ('call:forms', 'fb( )'), ('call:forms', 'fb (1)'), ('call:forms', 'fb(1,2)'), ('call:forms', 'fb( 1 , 2 )'), ('call:forms', 'fb(+1, -1)'),
+    ('call:forms', 'fb(fb(+1))'), ('call:forms', 'fb(-n, !n, (n))'), ('call:forms', 'fb(1)(2)'), ('call:forms', "fb('a', \"b\", [c])"),
+    ('call:near-miss', 'fb(1,)'), ('call:near-miss', 'fb(,1)'), ('call:near-miss', 'fb(1 2)'), ('call:near-miss', 'fb(1'), ('call:near-miss', 'fb)'),
+    ('call:near-miss', 'fb(+)'), ('call:near-miss', 'fb(1, +n)'),
+    # groups
+    ('group:canon', '(1)'), ('group:forms', '( 1 )'), ('group:forms', '((1))'), ('group:forms', '(+1)'), ('group:forms', '(-n)'), ('group:forms', '(n)(m)'),
+    ('group:near-miss', '()'), ('group:near-miss', '(1'), ('group:near-miss', '1)'), ('group:near-miss', '(+n)'), ('group:near-miss', '(1, 2)'),
+    # binary operators: every operator tight and wide, signed right operands, chains
+    ('binary:signed', '1 + +1'), ('binary:signed', '1 - -1'), ('binary:signed', '1 ++1'), ('binary:signed', '1+-1'), ('binary:signed', '1-+1'),
+    ('binary:signed', 'n+1'), ('binary:signed', 'n -1'), ('binary:signed', 'n +1'), ('binary:signed', '2**-1'), ('binary:signed', '2 ** +1'),
+    ('binary:signed', 'n<-1'), ('binary:signed', 'n*+2'), ('binary:signed', 'n == +1'), ('binary:signed', '1 + + 1'), ('binary:signed', 'n && +1'),
+    ('binary:signed', 'n + +m'), ('binary:signed', 'n - +m'), ('binary:signed', 'n ** +m'), ('binary:signed', 'n || +fb()'),
+    ('binary:chain', '1 + 2 * 3 ** 4'), ('binary:chain', '1 ** 2 * 3 + 4'), ('binary:chain', 'n < 1 == m > 2 && 1 || 0'), ('binary:chain', '-n ** 2'),
+    ('binary:chain', '!n && !m'), ('binary:chain', '1 - 2 - 3'), ('binary:chain', '2 ** 3 ** 2'),
+    ('binary:near-miss', '1 +'), ('binary:near-miss', '* 1'), ('binary:near-miss', '1 = 1'), ('binary:near-miss', '1 === 1'), ('binary:near-miss', '1 <> 1'),
+    ('binary:near-miss', '1 & 1'), ('binary:near-miss', '1 | 1'), ('binary:near-miss', '1 // 1'), ('binary:near-miss', '1 ^ 1'), ('binary:near-miss', '1 and 1'),
+    ('binary:near-miss', '1 =< 1'), ('binary:near-miss', '1 ! 1'), ('binary:near-miss', '1 1'),
+] + [('binary:op-tight', 'n%s1' % op) for op in ('**', '*', '/', '%', '+', '-', '<=', '<', '>=', '>', '==', '!=', '&&', '||')] \
+  + [('binary:op-wide', 'n  %s  m' % op) for op in ('**', '*', '/', '%', '+', '-', '<=', '<', '>=', '>', '==', '!=', '&&', '||')]
+
+# (site, lines with the placeholder {E}, raw label / jump lines present)
+EXPR_SITES = [
+    ('assign', ['x = {E}'], False),
+    ('exprstmt-arg', ['fb({E})'], False),
+    ('arg-second', ['x = fb(1, {E})'], False),
+    ('return', ['return {E}'], False),
+    ('if', ['if {E}:', '    x = 1', 'endif'], False),
+    ('elif', ['if n:', '    x = 1', 'elif {E}:', '    x = 2', 'else:', '    x = 3', 'endif'], False),
+    ('while', ['while {E}:', '    n = n + 1', '    break', 'endwhile'], False),
+    ('for', ['for v in {E}:', '    n = n + 1', 'endfor'], False),
+    ('jumpif', ['jumpif ({E}) lab', 'n = n + 1', 'lab:'], True),
+    ('binary-right', ['x = n + {E}'], False),
+    ('binary-right-tight', ['x = n+{E}'], False),
+    ('binary-left', ['x = {E} * 2'], False),
+    ('binary-left-tight', ['x = {E}-1'], False),
+    ('pow-right', ['x = 2 ** {E}'], False),
+    ('unary-minus-operand', ['x = -{E}'], False),
+    ('unary-not-operand', ['x = !{E}'], False),
+    ('group', ['x = ({E})'], False),
+]
+EXPR_CONTEXTS = ['global', 'function']
+
+
+def expr_site_text(lines, spelling, context):
+    lines = [ln.replace('{E}', spelling) for ln in lines]
+    if context == 'global':
+        return '\n'.join(['n = 0'] + lines)
+    return '\n'.join(['function fa(n):'] + ['    ' + ln for ln in lines] + ['endfunction', 'fa(0)'])
+
+
+def expr_spelling_cases():
+    for site, lines, raw_ in EXPR_SITES:
+        for context in EXPR_CONTEXTS:
+            for cls, spelling in EXPR_SPELLINGS:
+                yield site, context, cls, spelling, raw_, expr_site_text(lines, spelling, context)
+
+
+# ---------------------------------------------------------------------------------------------------------------------
 # the property's own oracles, on the implementation's output (independent of the Lean model)
 # ---------------------------------------------------------------------------------------------------------------------
+
+# the published schema (model.py, `BARE_SCRIPT_TYPES`) as pinned data of the harness: member sets, unions, enumerations, `len > 0`.
+# Scalars are judged the way the schema validator reads them (a number is an int / float that is no bool).
+PUBLISHED_BINARY_OPS = ('**', '*', '/', '%', '+', '-', '<=', '<', '>=', '>', '==', '!=', '&&', '||')
+PUBLISHED_UNARY_OPS = ('-', '!')
+
+
+def schema_defects(model, limit=6):
+    """violations of the published BareScript schema in a model (walk written from the schema text, independent of validate_script)"""
+    out = []
+
+    def bad(path, msg):
+        if len(out) < limit:
+            out.append('%s: %s' % (path or '<model>', msg))
+
+    def struct(path, v, required, optional=()):
+        if not isinstance(v, dict):
+            bad(path, 'not an object: %r' % (v,))
+            return False
+        for k in v:
+            if k not in required and k not in optional:
+                bad(path, 'unknown member %r' % (k,))
+        for k in required:
+            if k not in v:
+                bad(path, 'missing member %r' % (k,))
+        return True
+
+    def union(path, v, members):
+        if not isinstance(v, dict) or len(v) != 1 or next(iter(v)) not in members:
+            bad(path, 'not exactly one member of %s: %r' % ('/'.join(members), sorted(v) if isinstance(v, dict) else v))
+            return None, None
+        return next(iter(v.items()))
+
+    def text(path, v):
+        if not isinstance(v, str):
+            bad(path, 'not a string: %r' % (v,))
+
+    def flag(path, v):
+        if not isinstance(v, bool):
+            bad(path, 'not a bool: %r' % (v,))
+
+    def expr(path, e):
+        k, v = union(path, e, ('number', 'string', 'variable', 'function', 'binary', 'unary', 'group'))
+        p = '%s.%s' % (path, k)
+        if k == 'number':
+            if isinstance(v, bool) or not isinstance(v, (int, float)):
+                bad(p, 'not a number: %r' % (v,))
+        elif k in ('string', 'variable'):
+            text(p, v)
+        elif k == 'group':
+            expr(p, v)
+        elif k == 'unary':
+            if struct(p, v, ('op', 'expr')):
+                if 'op' in v and v['op'] not in PUBLISHED_UNARY_OPS:
+                    bad(p + '.op', '%r is no UnaryExpressionOperator' % (v['op'],))
+                if 'expr' in v:
+                    expr(p + '.expr', v['expr'])
+        elif k == 'binary':
+            if struct(p, v, ('op', 'left', 'right')):
+                if 'op' in v and v['op'] not in PUBLISHED_BINARY_OPS:
+                    bad(p + '.op', '%r is no BinaryExpressionOperator' % (v['op'],))
+                for side in ('left', 'right'):
+                    if side in v:
+                        expr('%s.%s' % (p, side), v[side])
+        elif k == 'function':
+            if struct(p, v, ('name',), ('args',)):
+                if 'name' in v:
+                    text(p + '.name', v['name'])
+                if 'args' in v:
+                    if not isinstance(v['args'], list):
+                        bad(p + '.args', 'not an array')
+                    else:
+                        for i, a in enumerate(v['args']):
+                            expr('%s.args.%d' % (p, i), a)
+
+    def statements(path, stmts):
+        if not isinstance(stmts, list):
+            bad(path, 'not an array')
+            return
+        for i, st in enumerate(stmts):
+            k, v = union('%s.%d' % (path, i), st, ('expr', 'jump', 'return', 'label', 'function', 'include'))
+            p = '%s.%d.%s' % (path, i, k)
+            if k == 'label':
+                text(p, v)
+            elif k == 'expr':
+                if struct(p, v, ('expr',), ('name',)):
+                    if 'name' in v:
+                        text(p + '.name', v['name'])
+                    if 'expr' in v:
+                        expr(p + '.expr', v['expr'])
+            elif k == 'jump':
+                if struct(p, v, ('label',), ('expr',)):
+                    if 'label' in v:
+                        text(p + '.label', v['label'])
+                    if 'expr' in v:
+                        expr(p + '.expr', v['expr'])
+            elif k == 'return':
+                if struct(p, v, (), ('expr',)) and 'expr' in v:
+                    expr(p + '.expr', v['expr'])
+            elif k == 'include':
+                if struct(p, v, ('includes',)) and 'includes' in v:
+                    incs = v['includes']
+                    if not isinstance(incs, list) or not incs:
+                        bad(p + '.includes', 'not a non-empty array')
+                    else:
+                        for j, inc_ in enumerate(incs):
+                            q = '%s.includes.%d' % (p, j)
+                            if struct(q, inc_, ('url',), ('system',)):
+                                if 'url' in inc_:
+                                    text(q + '.url', inc_['url'])
+                                if 'system' in inc_:
+                                    flag(q + '.system', inc_['system'])
+            elif k == 'function':
+                if struct(p, v, ('name', 'statements'), ('async', 'args', 'lastArgArray')):
+                    if 'name' in v:
+                        text(p + '.name', v['name'])
+                    for fl in ('async', 'lastArgArray'):
+                        if fl in v:
+                            flag('%s.%s' % (p, fl), v[fl])
+                    if 'args' in v:
+                        if not isinstance(v['args'], list) or not v['args']:
+                            bad(p + '.args', 'not a non-empty array')
+                        else:
+                            for j, a in enumerate(v['args']):
+                                text('%s.args.%d' % (p, j), a)
+                    if 'statements' in v:
+                        statements(p + '.statements', v['statements'])
+
+    if struct('', model, ('statements',)) and 'statements' in model:
+        statements('statements', model['statements'])
+    return out
+
 
 def scopes_of(statements, name='<global>'):
     """(scope name, statement list) for the global list and, recursively, every function body"""
@@ -672,6 +1030,10 @@ def check_model(ctx, text, model, generated_only=False, execute=True, as_lines=F
         mods['model'].validate_script(model)
     except Exception as exc:  # pylint: disable=broad-except
         ctx.witness('schema-valid', inp, 'validate_script accepts the model returned by parse_script', f'{type(exc).__name__}: {exc}'[:300])
+    # 1b. the published schema as pinned by the harness (member sets, unions, operator enumerations, non-empty arrays)
+    pinned = schema_defects(model)
+    if pinned:
+        ctx.witness('schema-published', inp, 'the model has exactly the members / union keys / operator names of the published schema', pinned)
     # 2. labels / jumps per scope
     defects = scope_defects(model['statements'], generated_only)
     if defects:
@@ -712,7 +1074,7 @@ def parse_impl(text, as_lines=False):
         return None, 'hostexc ' + type(exc).__name__
 
 
-def run_cases(ctx, st, stream, cases, generated_only=False):
+def run_cases(ctx, st, stream, cases, generated_only=False, rejected_nontrivial=False):
     """cases: [(prog, tags) or (prog, tags, style)]; one driver batch; correspondence + oracles.  The expected lowering is a function
     of the structured program alone: a style (see `spell`) changes the text handed to parse_script, not the model's answer."""
     resps = ctx.driver.batch([{'op': 'lower', 'prog': case[0]} for case in cases])
@@ -730,7 +1092,7 @@ def run_cases(ctx, st, stream, cases, generated_only=False):
         model, err = parse_impl(text, as_lines)
         if model is None:
             # not a well-nested program: the parser rejects it; only the mirror has something to say
-            st.case(text, nontrivial=False, tags=list(tags) + ['rejected'])
+            st.case(text, nontrivial=rejected_nontrivial, tags=list(tags) + ['rejected'])
             ctx.compare(stream + '-mirror', text, {'error': err}, resp.get('mirror'))
             continue
         impl = progen.canon_script(model, with_fid=False)
@@ -773,9 +1135,11 @@ def _worker(job):
             cases = shape_cases(payload, CONTEXTS_PLUS)
         elif kind == 'controls':
             cases = control_cases(payload)
+        elif kind == 'stray':
+            cases = stray_cases(payload)
         else:
             cases = payload
-        run_cases(ctx, st, stream, cases, generated_only)
+        run_cases(ctx, st, stream, cases, generated_only, rejected_nontrivial=(kind == 'stray'))
     except fw.DriverCrash as exc:
         return {'crash': str(exc)}
     return {'evaluations': st.evaluations, 'hashes': st.hashes, 'hist': st.hist, 'samples': st.samples,
@@ -864,7 +1228,8 @@ def streams(ctx):
     corpus = load_corpus()
     if corpus:
         st = ctx.stream('corpus', 'hand-picked programs (harness/corpus/C07.jsonl): elif chains without else, continue through nested ifs, '
-                                  'while+continue, raw labels next to generated ones, merged includes, ill-nested programs the parser rejects')
+                                  'while+continue, raw labels next to generated ones, merged includes, ill-nested programs the parser rejects (break / continue '
+                                  'under an if of a function defined inside an open global loop)')
         entry = lambda c, tag: (progen.assign_fids(c['prog']), [tag]) + ((c['style'],) if c.get('style') else ())  # noqa: E731
         run_cases(ctx, st, 'corpus', [entry(c, 'corpus') for c in corpus if not c.get('raw')])
         run_cases(ctx, st, 'corpus', [entry(c, 'corpus-raw') for c in corpus if c.get('raw')], generated_only=True)
@@ -924,6 +1289,87 @@ def streams(ctx):
     st.exhaustive = True
     ctx.notes.append(f'controls: {len(todo) // len(contexts)} (site, expression, body) combinations x {len(contexts)} contexts, '
                      f'enumerated completely')
+
+    # --- stream ill-nested: stray break / continue across scope boundaries (exhaustive, with the mirror) ...
+    outer_d, inner_d = 2, ctx.scale(1, 2)
+    siblings = ctx.scale(STRAY_SIBLINGS_QUICK, STRAY_SIBLINGS)
+    gsibs = ctx.scale(['none'], ['none', 'closed-before'])
+    st = ctx.stream('ill-nested',
+                    f'EXHAUSTIVE: a break / continue that no loop OF ITS OWN SCOPE encloses: every chain of 0..{outer_d} global constructs '
+                    f'({len(OUTER_LEVELS)} variants: while, for, for-with-index, if / else / elif branches) around a function definition x '
+                    f'every chain of 0..{inner_d} if-variants ({len(INNER_LEVELS)}: the statement in the if / else / elif branch) around the '
+                    f'statement inside the function x break / continue x the rest of the function body ({", ".join(siblings)}; own-...-around '
+                    f'is the accepted twin: the statement binds to the function\'s own loop while global loops are open) x a closed global '
+                    f'for-with-continue in front ({", ".join(gsibs)}; the second only under at most one open global block); the same at global scope without a function.  The parser must answer '
+                    f'like the line-at-a-time mirror (reject with the same message / same lowering); every model it returns is judged by '
+                    f'the scope, schema, lint and execution oracles; non-trivial = rejected as it must be, or accepted with a label defined')
+    todo = list(stray_specs(outer_d, inner_d, siblings, gsibs))
+    run_jobs(ctx, st, [('stray', 'ill-nested', ch, False) for ch in chunks(todo, 600)])
+    st.exhaustive = True
+    ctx.notes.append(f'ill-nested: {len(todo)} (placement, outer chain, inner chain, statement, sibling, global sibling) combinations, '
+                     f'enumerated completely')
+
+    # --- stream line-edits: one structural line deleted / duplicated / swapped / inserted (text only; implementation-side oracles)
+    st = ctx.stream('line-edits',
+                    'EXHAUSTIVE single-line edits of well-nested hosts (shape programs at global scope / in a function / in a function '
+                    'defined inside open global while > if / several functions; the spelling hosts with functions): every block line '
+                    '(if, elif, else, endif, while, endwhile, for, endfor, function, endfunction, break, continue) deleted, duplicated, '
+                    f'swapped with its neighbour, and each of {len(INSERT_LINES)} block lines inserted at every position.  An unbalanced '
+                    'line sequence has no wire form, so there is NO Lean side here: the parser either rejects the text or returns a model, '
+                    'and every returned model must pass the implementation-side oracles (schema, per-scope label / jump census, generated '
+                    'names only, lint, execution); non-trivial = the edited text is still accepted and defines a label')
+    seen_texts = set()
+    for name, lines in line_edit_hosts(thorough=not ctx.quick):
+        for kind, edited in line_edits(lines):
+            text = '\n'.join(edited)
+            if text in seen_texts:
+                continue
+            seen_texts.add(text)
+            model, err = parse_impl(text)
+            if model is None:
+                st.case(text, nontrivial=False, tags=['host:' + name, 'edit:' + kind, 'rejected', 'rejected:' + str(err)[:40]])
+                continue
+            tag = check_model(ctx, text, model)
+            nlabels = sum(1 for _, stmts in scopes_of(model['statements']) for s in stmts if 'label' in s)
+            st.case(text, nontrivial=nlabels > 0, tags=['host:' + name, 'edit:' + kind, 'accepted', 'exec:' + tag])
+    st.exhaustive = True
+
+    # --- stream expr-spelling: every lexical alternative of the expression grammar at every expression site
+    st = ctx.stream('expr-spelling',
+                    f'EXHAUSTIVE: {len(EXPR_SITES)} expression sites of the statement grammar (assignment, call argument first / second, '
+                    f'return, if / elif / while test, for values, jumpif test, operand to the right / left of a binary operator with and '
+                    f'without a blank, exponent, operand of unary - and !, inside a group) x {{global scope, inside a function}} x '
+                    f'{len(EXPR_SPELLINGS)} spellings: number literals canonical / with explicit + or - sign / trailing point / exponent / '
+                    f'leading zeros / beyond the double range, unary operators on every operand kind (unary plus and other non-operators '
+                    f'must be rejected), single / double quoted strings with escapes and with text that looks like syntax, plain and '
+                    f'bracketed names, call and group forms, every binary operator tight and wide, signed right operands (n++1, 2**-1), '
+                    f'chains, and the near misses of each class.  Oracles on the implementation: validate_script, the pinned walk of the '
+                    f'published schema (operator enumerations, member sets), scope / lint / execution; Lean side: the schema model of '
+                    f'drv_c07x accepts the returned model and writes it back unchanged (expression TEXT grammar: C02 / C06, not modelled '
+                    f'here); non-trivial = an accepted non-canonical spelling')
+    sent = []
+    for site, context, cls, spelling, raw_, text in expr_spelling_cases():
+        model, err = parse_impl(text)
+        tags = ['site:' + site, context, cls]
+        if model is None:
+            st.case(text, nontrivial=False, tags=tags + ['rejected'])
+            continue
+        tag = check_model(ctx, text, model, generated_only=raw_)
+        st.case(text, nontrivial=not cls.endswith(':canon'), tags=tags + ['accepted', 'exec:' + tag])
+        try:
+            sent.append((text, progen.canon_script(model, with_fid=False)))
+        except (OverflowError, ValueError, KeyError, TypeError):
+            pass                                  # a non-finite literal (1e+308 is the largest sent) has no exact wire form
+    st.exhaustive = True
+    try:
+        drv = fw.Driver('drv_c07x')
+        for (text, doc), resp in zip(sent, drv.batch([{'op': 'schema_script', 'script': d} for _, d in sent])):
+            ctx.compare('expr-spelling-schema', text, {'valid': True, 'roundtrip': doc, 'copyOk': True},
+                        {k: resp.get(k) for k in ('valid', 'roundtrip', 'copyOk')})
+        if ctx.driver is not None:
+            ctx.driver.requests += drv.requests
+    except fw.Infra as exc:
+        ctx.broken.append(f'correspondence: expr-spelling schema tie could not run: {exc}')
 
     # --- stream spelling-single: exhaustive, every gap of every statement line kind x every filler class, one deviation at a time
     exotic = WS_EXOTIC
@@ -1067,6 +1513,28 @@ def search(ctx):
             model, _ = parse_impl(text)
             if model is not None:
                 check_model(ctx, text, model, execute=(context != 'multi'))
+        if len(ctx.witnesses) - before >= 20:
+            return
+    # programs the parser ought to reject, single-line edits, expression spellings
+    for spec in stray_specs(2, maxd - 1, STRAY_SIBLINGS, ['none', 'closed-before']):
+        text = '\n'.join(progen.render(stray_program(*spec)))
+        model, _ = parse_impl(text)
+        if model is not None:
+            check_model(ctx, text, model, execute=False)
+        if len(ctx.witnesses) - before >= 20:
+            return
+    for _, lines in line_edit_hosts(thorough=True):
+        for _, edited in line_edits(lines):
+            text = '\n'.join(edited)
+            model, _ = parse_impl(text)
+            if model is not None:
+                check_model(ctx, text, model, execute=False)
+        if len(ctx.witnesses) - before >= 20:
+            return
+    for _, _, _, _, raw_, text in expr_spelling_cases():
+        model, _ = parse_impl(text)
+        if model is not None:
+            check_model(ctx, text, model, generated_only=raw_, execute=False)
         if len(ctx.witnesses) - before >= 20:
             return
     # spellings: one deviation at a time, then whole-program styles over the shape space
